@@ -289,3 +289,10 @@ def run(ctx):
         for name in handled:
             for piece in {"NilpotentMinimum": ["sum>1", "sum<1", "sum==1"], "NilpotentMaximum": ["sum>1", "sum<1", "sum==1"], "DrasticProduct": ["max==1", "max<1"], "DrasticSum": ["min==0", "min>0"], "HamacherProduct": ["a+b==0", "a+b>0"], "HamacherSum": ["ab==1", "ab<1"]}.get(name, []):
                 ctx.require(f"piece:{name}:{piece}")
+
+
+def passive(ctx, fl, probe):
+    """attach this property's always-on monitor to a foreign workload (the repository's test-suite, see vf/pytest_plugin.py)"""
+    mon = NormMonitor(ctx, fl)
+    mon.install(probe)
+    return mon.check_laws
